@@ -316,7 +316,12 @@ pub(crate) fn skip_ipv6_header(mut packet: Bytes) -> Option<(libc::c_int, Bytes)
                     return None;
                 }
                 next_protocol = packet.get_u8() as libc::c_int;
-                let header_ext_length = packet.get_u8() as usize;
+                // Hdr Ext Len is in 8-octet units, not including the first 8 octets (RFC 8200),
+                // and 2 octets of the header are already consumed
+                let header_ext_length = (packet.get_u8() as usize + 1) * 8 - 2;
+                if packet.len() < header_ext_length {
+                    return None;
+                }
                 packet.advance(header_ext_length);
             }
             libc::IPPROTO_FRAGMENT => {
